@@ -321,7 +321,7 @@ def gen_range_hist(g, hid):
     return h
 
 
-def pkgrp_query(r, t, d):
+def pkgrp_query(r, t, d, allow_sum=False):
     """GROUP BY / DISTINCT on the primary-key column (key values are NOT unique: uniqueness is not enforced).
     Only the disk engine plans these as a sort aggregation directly over the key-ordered scan; equal keys
     arrive in different scan batches (row-sets, blocks).  `#seq` marks answers that are one sequence."""
@@ -335,8 +335,13 @@ def pkgrp_query(r, t, d):
              "select count(*) from %s p join %s q on p.%s = q.%s" % (t, t, a, a)]
     if x:
         forms += ["select %s, count(*), min(%s), max(%s) from %s group by %s" % (a, x, x, t, a),
-                  "select %s, sum(%s), count(%s) from %s group by %s" % (a, x, x, t, a),
+                  "select %s, count(%s) from %s group by %s" % (a, x, t, a),
                   "select %s, min(%s) from %s group by %s order by %s#seq" % (a, x, t, a, a)]
+        if allow_sum:
+            # SUM only where the values are small: with values near the INT limits whether the 32-bit
+            # accumulator overflows (an error since 5b4435f) depends on the order of accumulation, which
+            # legitimately differs between the engines (thorough tier: memory err, disk ok) - false alarm
+            forms += ["select %s, sum(%s), count(%s) from %s group by %s" % (a, x, x, t, a)]
     return r.choice(forms)
 
 
@@ -370,7 +375,7 @@ def gen_dupkey_hist(g, hid):
     def ask():
         k = len(steps) - 1
         for _ in range(r.randint(2, 4)):
-            q = pkgrp_query(r, "t0", d)
+            q = pkgrp_query(r, "t0", d, allow_sum=True)
             kind = "pkgrp"
             if q.endswith("#seq"):
                 q, kind = q[:-4], "pkgrpseq"
